@@ -24,25 +24,35 @@ func init() {
 			"Sacramento is chained step-by-step only with the no-lag unit hydrograph (its UH buffer is not a state: known finding of C06); lagged UHs are checked on whole runs",
 		},
 		Workloads: []core.Workload{
-			{Name: "rr", Variant: "plain", N: core.Tiered(5*160, 5*6000), Run: c10Case},
+			{Name: "rr", Variant: "plain", N: core.Tiered(5*160, 5*6000), Run: func(c *core.Ctx) { c10Run(c, false) }},
+			// simulation-length single calls (2100-6000 daily steps): buffers that are compacted, rotated or re-used every so
+			// many steps inside one Run are only exercised by runs longer than their period
+			{Name: "rr-long", Variant: "plain", N: core.Tiered(5*12, 5*200), Run: func(c *core.Ctx) { c10Run(c, true) }, TimeoutS: 600},
 		},
 		RequireTags: func(string) []string { return []string{"GR4J:closure", "Sacramento:chained", "Sacramento:whole-lagged", "Sacramento:small-lztwm-stress", "Sacramento:small-suppl-store-stress", "Sacramento:small-tension-stores-stress"} },
 	})
 }
 
-func c10Case(c *core.Ctx) {
+func c10Run(c *core.Ctx, long bool) {
 	model := c10Models[c.Idx%len(c10Models)]
 	T := c.R.IntRange(50, 400)
 	if c.Tier == "quick" {
 		T = c.R.IntRange(50, 150)
 	}
+	if long {
+		T = c.R.IntRange(2100, 6000)
+	}
 	desc := NewModel(model).Description()
 	ps := GenPSet(model, c.R, genOpts{})
 	get := func(n string) float64 { return ps[paramIndex(desc, n)][0] }
 	closure := false
-	if model == "GR4J" && c.R.Bool(0.25) {
+	if model == "GR4J" && (c.R.Bool(0.25) || (long && c.R.Bool(0.6))) {
 		ps[paramIndex(desc, "X2")][0] = 0
 		closure = true
+	}
+	if long && model == "GR4J" && ps[paramIndex(desc, "X2")][0] > 0 {
+		// the long runs are simulated in ONE call (no per-step routing store to recompute the groundwater import from)
+		ps[paramIndex(desc, "X2")][0] = -ps[paramIndex(desc, "X2")][0]
 	}
 	in := GenInputs(model, c.R, T, ps)
 	if closure {
@@ -153,6 +163,9 @@ func c10Case(c *core.Ctx) {
 		}
 		chained = !lagged
 	}
+	if long {
+		chained = false
+	}
 	run := &MRun{Model: model, N: 1, T: T, Sets: []PSet{ps}, Inputs: [][][]float64{in}}
 	var warm *MRun
 	if hot {
@@ -160,6 +173,9 @@ func c10Case(c *core.Ctx) {
 		warm = &MRun{Model: model, N: 1, T: wT, Sets: []PSet{ps}, Inputs: [][][]float64{GenInputs(model, c.R, wT, ps)}}
 	}
 	c.Begin(map[string]interface{}{"model": model, "run": run, "warmup_for_hot_states": warm, "chained": chained})
+	if long {
+		c.Tag("long-single-call")
+	}
 	if stress {
 		c.Tag("Sacramento:small-lztwm-stress")
 	}
